@@ -19,7 +19,7 @@ callees are resolved by the real overload resolution.
 import collections
 import re
 
-from rkstatic.x_vecexpr import (COMPS, FnView, Formula, Inliner, Poly, calls_in, commute, ctor_fields, fold_consts, map_terms, subst_params, unroll, flatten, poly, show, strip_casts, subst,
+from rkstatic.x_vecexpr import (COMPS, FnView, Formula, Inliner, Poly, calls_in, commute, ctor_fields, fold_consts, map_terms, select_to_minmax, subst_params, unroll, flatten, poly, show, strip_casts, subst,
                                 tclean, tkey, tparse, unknowns, vecshape)
 
 LEVEL = 'other'
@@ -488,6 +488,10 @@ def fam_compound(res, s, v):
             bad = True
     if ret != ('p', 0):
         res.und(R2, 'does not return its left operand: %s' % (show(ret, s.names) if ret else 'nothing'))
+    elif not s.ret.rstrip().endswith('&') or s.ret.rstrip().endswith('&&'):
+        res.bad(R2, '`%s` returns `%s`: a copy of the left operand, not the left operand itself - the scalar compound assignment '
+                    'yields the assigned object (an lvalue), so `(a %s b) %s c` or `auto &r = (a %s b)` updates / refers to a '
+                    'detached temporary' % (s.name, s.ret, COMPOUND[s.name], COMPOUND[s.name], COMPOUND[s.name]), 'returns-copy')
     if bad or not slots:
         return
     # R-C04-4 (compound form): where the element types differ, the right operand takes part in its own type; `a.k op= T(b)`
@@ -803,12 +807,22 @@ def fam_term(res, s, v, expected, what, calls=()):
     if t is None:
         res.und(R3, '%s: body is not a single return' % what)
         return
-    t = unwrap_vec(t)
+    t = select_to_minmax(unwrap_vec(t))
     cm = lambda x: commute(strip_casts(x, pred=lambda ty: False), ops=('+', '*'), calls=calls)
     a, e = cm(t), cm(expected)
     if a == e:
         res.ok(R3, '%s = %s' % (what, show(expected, s.names)))
         return
+    if what == 'safe_normalize':
+        raw = ('call', 'dot', (('p', 0), ('p', 0)))
+        hits = []
+        map_terms(a, lambda x: (hits.append(x), x)[1] if x[0] == 'call' and x[1] in ('rsqrt', 'rcp', 'sqrt') and x[2] == (raw,) else x)
+        if hits:
+            res.bad(R3, 'safe_normalize applies `%s` to the unguarded squared length (`%s`): the guard max(T(ulp), dot(v,v)) must bound '
+                        'the argument of rsqrt - rsqrt(0) / rsqrt(subnormal) is inf*0 = NaN in the SIMD configuration and a later '
+                        'min/max does not remove a NaN, so exactly the near-zero vectors the function exists for become NaN' % (
+                            hits[0][1], show(t, s.names)), 'unguarded-rsqrt')
+            return
     ds = []
     tdiff(a, e, ds)
     kinds = {d[0] for d in ds}
@@ -1578,6 +1592,29 @@ def _expand_bulk(irnorm, X, Y):
     return out
 
 
+def _dependent_atoms(guard):
+    """comparison atoms of a witness guard that have a computed (non-symbol) operand and share an input with another atom of
+    the guard: irnorm's consistency check is complete only for independent operands, so such a witness may be spurious"""
+    import sympy as sp
+    atoms = []
+    for lit_ in guard:
+        for a in lit_.atoms(sp.Function) if hasattr(lit_, 'atoms') else ():
+            if a.func.__name__ in ('olt', 'ole', 'oeq', 'slt', 'ult', 'eq'):
+                atoms.append(a)
+    atoms = list(dict.fromkeys(atoms))
+    out = []
+    for i, a in enumerate(atoms):
+        compound = any(not (x.is_Symbol or x.is_Number) for x in a.args)
+        if not compound:
+            continue
+        syms = a.free_symbols
+        for j, b in enumerate(atoms):
+            if i != j and (syms & b.free_symbols):
+                out.append(str(a))
+                break
+    return ', '.join(out)
+
+
 def _ndelta(cases):
     """number of distinct rounding symbols in the guarded terms of one output slot"""
     names = set()
@@ -1640,6 +1677,13 @@ def ir_identities(ctx, rule, unit, anchor_file, minimum, precondition=None, sing
                 break
             if not okk:
                 gA, tA, gB, tB = wit
+                dep = _dependent_atoms(list(gA) + list(gB))
+                if dep:
+                    ctx.undecided(rule, inst, 'slot %s differs only under a guard whose comparison atoms are over computed operands that '
+                                              'share inputs (%s): such atoms are not independent, the joint guard may be unsatisfiable' % (
+                                                  slot, dep[:160]), loc)
+                    bad = True
+                    break
                 if irnorm.opaque_atoms(tA) or irnorm.opaque_atoms(tB):
                     ctx.undecided(rule, inst, 'slot %s differs but involves opaque atoms: %s vs %s' % (slot, tA, tB), loc)
                 else:
